@@ -126,6 +126,7 @@ type c04Scenario struct {
 	ops      []c04Op
 	viaGrpc  bool // streams: grpc.SetHeader(ctx, ..) instead of the stream's own methods
 	fail     bool // handler returns an error
+	serveMD  int  // the context given to Serve: 0 plain, 1 carries incoming metadata (disjoint keys), 2 (keys of the call)
 }
 
 func TestC04Sys(t *testing.T) {
@@ -235,6 +236,55 @@ func TestC04Sys(t *testing.T) {
 		}
 	}
 
+	// Serve context dimension: every scenario above gets one of the three (by position) ...
+	for i := range scs {
+		scs[i].serveMD = i % 3
+	}
+	// ... and calls that attach NOTHING (no metadata, no deadline: an empty request header list) under each
+	for _, k := range c08Kinds {
+		for sm := 0; sm <= 2; sm++ {
+			scs = append(scs, c04Scenario{k: k, serveMD: sm}, c04Scenario{k: k, serveMD: sm, deadline: true},
+				c04Scenario{k: k, serveMD: sm, ctxMD: metadata.MD{}}, c04Scenario{k: k, serveMD: sm, ctxMD: metadata.MD{"only": {"v"}}})
+		}
+	}
+	// metadata blocks at size limits: one value such that len(key) + len(encoded value) + 32 is L-1, L, L+1 for
+	// L = 4 KiB, 8 KiB, 16 KiB (64 KiB once; thorough: 1 MiB), text and -bin, in the request, the response
+	// headers (all three ways they leave) and the trailers
+	sized := func(key string, total int) metadata.MD {
+		n := total - 32 - len(key)
+		if strings.HasSuffix(key, "-bin") {
+			raw := make([]byte, n*3/4)
+			for i := range raw {
+				raw[i] = byte(i*7 + 3)
+			}
+			return metadata.MD{key: {string(raw)}}
+		}
+		return metadata.MD{key: {strings.Repeat("x", n)}}
+	}
+	type lim struct{ l, d int }
+	var lims []lim
+	// (the Coq side decodes every value: the quick tier keeps to 16 KiB and 16 KiB + 1, text and -bin; the other sizes are thorough's)
+	lims = append(lims, lim{16384, 0}, lim{16384, 1})
+	if thorough() {
+		lims = append(lims, lim{16384, -1}, lim{4096, -1}, lim{4096, 0}, lim{4096, 1}, lim{8192, -1}, lim{8192, 0}, lim{8192, 1},
+			lim{65536, -1}, lim{65536, 0}, lim{65536, 1}, lim{1 << 20, 0})
+	}
+	for li, lm := range lims {
+		for ki, key := range []string{"big", "big-bin"} {
+			if key == "big-bin" && !thorough() && !(lm.l == 16384 && lm.d == 1) {
+				continue // quick tier: one binary value, just above 16 KiB (decoding them in Coq is the cost: ~10 s and 500 MB each)
+			}
+			md := sized(key, lm.l+lm.d)
+			k := c08Kinds[(li+ki)%4]
+			flush := [][]c04Op{{{"SetHeader", md}, {"SetTrailer", md}}, {{"SendHeader", md}, {"SetTrailer", md}}, {{"SetHeader", md}, {"SendMsg", nil}, {"SetTrailer", md}}}[(li+ki)%3]
+			ops := flush
+			if !k.stream {
+				ops = []c04Op{{"SetHeader", md}, {"SetTrailer", md}}
+			}
+			scs = append(scs, c04Scenario{k: k, ctxMD: md, ops: ops, fail: li%2 == 1, serveMD: li % 3})
+		}
+	}
+
 	for si, sc := range scs {
 		if !anyWanted(idx, 5) {
 			idx += 5
@@ -318,7 +368,23 @@ func TestC04Sys(t *testing.T) {
 			l.Auto = true
 			srv := newEchoServer("dst", impl)
 			ret := make(chan error, 1)
-			go func() { ret <- srv.Serve(context.Background(), l.S) }()
+			// goat tunnelled through an outer gRPC stream: the context given to Serve may itself carry INCOMING
+			// metadata; the handler must see exactly what ITS caller attached, none of the outer keys
+			serveCtx := context.Background()
+			switch sc.serveMD {
+			case 1:
+				serveCtx = metadata.NewIncomingContext(serveCtx, metadata.MD{"authorization": {"Bearer outer"}, "x-tunnel-id": {"t-1", "t-2"}, "outer-bin": {"\x00\x01"}})
+			case 2:
+				outer := metadata.MD{"authorization": {"Bearer outer"}}
+				for k, vs := range sc.ctxMD {
+					outer[strings.ToLower(k)] = append([]string{"outer-value"}, vs...)
+				}
+				for i := 0; i+1 < len(sc.icPairs); i += 2 {
+					outer[strings.ToLower(sc.icPairs[i])] = []string{"outer-value"}
+				}
+				serveCtx = metadata.NewIncomingContext(serveCtx, outer)
+			}
+			go func() { ret <- srv.Serve(serveCtx, l.S) }()
 			cc := goat.NewClientConn(l.C, "src", "dst", dopts...)
 			ctx, cancel := context.WithCancel(context.Background())
 			defer cancel()
